@@ -18,21 +18,34 @@ from vivarium.core.composition import add_timeline
 LAWS = ['C19_OnTimeOnce', 'C19_NoneDropped', 'C19_OrderFree', 'RowsAgree']
 
 
+# the values the events set: plain numbers, or one-element lists / dictionaries
+# (an event sets its variables 'to the given values' whatever their type)
+CARRIERS = {
+    'int': (lambda n: n, lambda v: v),
+    'list': (lambda n: [n], lambda v: v[0] if isinstance(v, list) and len(v) == 1 else 'BAD%r' % (v,)),
+    'dict': (lambda n: {'k%d' % n: n},
+             lambda v: (list(v.values())[0] if isinstance(v, dict) and len(v) == 1
+                        and list(v) == ['k%d' % list(v.values())[0]] else 'BAD%r' % (v,))),
+}
+
+
 class Holder(Process):
     """Declares the variables the timeline drives; contributes nothing."""
-    defaults = {'names': ['x', 'y']}
+    defaults = {'names': ['x', 'y'], 'carrier': 'int'}
 
     def ports_schema(self):
-        return {'vars': {n: {'_default': 0, '_emit': True}
+        mk = CARRIERS[self.parameters['carrier']][0]
+        return {'vars': {n: {'_default': mk(0), '_emit': True, '_updater': 'set'}
                          for n in self.parameters['names']}}
 
     def next_update(self, timestep, states):
         return {}
 
 
-def run_case(case, via_add_timeline):
-    events = [(e['t'], {('vars', e['var']): i + 1}) for i, e in enumerate(case['tl'])]
-    holder = Holder({'time_step': case['ts']})
+def run_case(case, via_add_timeline, carrier='int'):
+    mk, unmk = CARRIERS[carrier]
+    events = [(e['t'], {('vars', e['var']): mk(i + 1)}) for i, e in enumerate(case['tl'])]
+    holder = Holder({'time_step': case['ts'], 'carrier': carrier})
     if via_add_timeline:
         processes = {'holder': holder}
         topology = {'holder': {'vars': ('vars',)}}
@@ -49,14 +62,17 @@ def run_case(case, via_add_timeline):
                  emitter='timeseries')
     eng.update(case['run'])
     data = eng.emitter.get_data()
-    return {float(t): d.get('vars', {}) for t, d in data.items()}
+    return {float(t): {k: unmk(v) for k, v in d.get('vars', {}).items()}
+            for t, d in data.items()}
 
 
-def check_case(rep, case):
-    for via in (False, True):
+def check_case(rep, case, k=0):
+    # list / dict valued events: every case wired through add_timeline in turn
+    variants = [(False, 'int'), (True, 'int'), (bool(k % 2), ('list', 'dict')[(k // 2) % 2])]
+    for via, carrier in variants:
         rep.evaluations += 1
         try:
-            got = run_case(case, via)
+            got = run_case(case, via, carrier)
         except Exception as e:
             rep.violation({'kind': 'case', 'tl': json.dumps(case['tl']), 'ts': case['ts']},
                           'C19 engine raised %r for timeline %s' % (e, json.dumps(case['tl'])),
@@ -67,10 +83,11 @@ def check_case(rep, case):
             diff = sorted(t for t in set(got) | set(exp) if got.get(t) != exp.get(t))
             rep.violation(
                 {'kind': 'case', 'tl': json.dumps(case['tl']), 'ts': case['ts'],
-                 'run': case['run']},
-                'C19 rows differ from Timeline.tla at times %s: timeline %s timestep %d: '
-                'got %s expected %s' % (diff[:3], json.dumps(case['tl']), case['ts'],
-                                        got.get(diff[0]), exp.get(diff[0])),
+                 'run': case['run'], 'values': carrier},
+                'C19 rows differ from Timeline.tla at times %s: timeline %s timestep %d '
+                '(%s values): got %s expected %s'
+                % (diff[:3], json.dumps(case['tl']), case['ts'], carrier,
+                   got.get(diff[0]), exp.get(diff[0])),
                 {'case': case, 'got': {str(k): v for k, v in got.items()},
                  'add_timeline': via})
             return
@@ -89,10 +106,10 @@ def run(rep, tier, scratch, only=None):
               'TSteps': '{1, 2, 4}', 'RunLen': '{8}' if tier == 'quick' else '{5, 8}'}
     cfg = table.cfg(consts, LAWS) + 'PROPERTIES\n  C19_NeverRefired\n'
     cases = table.run_table(rep, 'Timeline', 'Timeline_' + tier, cfg, scratch)
-    for c in cases:
+    for k, c in enumerate(cases):
         if only is not None and json.dumps(c['tl']) != only:
             continue
-        check_case(rep, c)
+        check_case(rep, c, k)
         if nontrivial(c):
             rep.nontrivial.add(json.dumps([c['tl'], c['ts'], c['run']]))
     rep.traces = len(cases)
